@@ -1063,3 +1063,334 @@ func init() {
 			}
 		}})
 }
+
+func init() {
+	register(&Rule{ID: "S3.value", Min: 6, Text: "the value an operation carries is encoded as completely as a snapshot encodes it: for every element type, if the operation-form encoder (converter.toJSONElementSimple and what it calls) reads any content field of the type — a field other than the createdAt/movedAt/removedAt stamps that the snapshot encoder reads — then it reads every such field; a type of which it reads none is carried as an empty container whose content follows as further operations. A field the snapshot keeps but the operation form drops is lost on every replica that receives the value through a change instead of a snapshot",
+		Run: func(x *Ctx) {
+			emptyForm := s3value(x, true)
+			x.C.Note("types carried as an empty container: " + strings.Join(emptyForm, ", "))
+		}})
+
+	register(&Rule{ID: "S3.operand", Min: 5, Text: "a type the operation form carries as an empty container (S3.value: today Text) may only be the operand of an operation when it was just created: every construction site of an operation with an element operand (NewSet, NewAdd, NewArraySet, …), outside the decoder, takes the operand from the creator callback of the json proxy, never (a copy of) an element taken from the document — a populated container handed to an operation arrives empty at every peer",
+		Run: func(x *Ctx) {
+			emptyForm := s3value(x, false)
+			if len(emptyForm) == 0 {
+				x.C.Note("no element type is carried as an empty container")
+				return
+			}
+			elemT := x.P.Named(crdtPkg + ".Element")
+			if elemT == nil {
+				x.C.Unresolved(x.id(), crdtPkg+".Element")
+				return
+			}
+			var ctors []*types.Func
+			for _, fn := range x.P.FuncsIn(opsPkg) {
+				if fn.Signature.Recv() != nil || !strings.HasPrefix(fn.Name(), "New") {
+					continue
+				}
+				for _, pm := range fn.Params {
+					if isNamed(pm.Type(), elemT) {
+						if o, ok := fn.Object().(*types.Func); ok && o != nil {
+							ctors = append(ctors, o)
+						}
+					}
+				}
+			}
+			sites := 0
+			for _, fn := range x.P.ProdFuncs() {
+				if fn.Pkg == nil || fn.Pkg.Pkg == nil || strings.HasSuffix(fn.Pkg.Pkg.Path(), "/"+convPkg) {
+					continue // the decoder builds operands from the wire form itself
+				}
+				for _, ctor := range ctors {
+					for i, c := range callsToIn(fn, ctor) {
+						var val ssa.Value
+						for _, a := range c.Common().Args {
+							if isNamed(a.Type(), elemT) {
+								val = a
+							}
+						}
+						if val == nil {
+							continue
+						}
+						// an operand of a concrete other type (Increase's *Primitive) cannot be a container
+						concrete := ""
+						if mi, ok := val.(*ssa.MakeInterface); ok {
+							if pt, isP := mi.X.Type().(*types.Pointer); isP {
+								if nt, isN := pt.Elem().(*types.Named); isN {
+									concrete = nt.Obj().Name()
+								}
+							}
+						}
+						sites++
+						fresh := prog.DependsOn(val, func(w ssa.Value) bool {
+							cl, ok := prog.Strip(w).(*ssa.Call)
+							if !ok {
+								return false
+							}
+							if pm, isP := cl.Call.Value.(*ssa.Parameter); isP {
+								_, isSig := pm.Type().Underlying().(*types.Signature)
+								return isSig // the creator callback handed to setInternal/addInternal/…
+							}
+							return false
+						}) && !prog.DependsOn(val, func(w ssa.Value) bool {
+							cl, ok := prog.Strip(w).(*ssa.Call)
+							if !ok || cl.Call.IsInvoke() {
+								return false
+							}
+							o := prog.CallObj(cl)
+							return o != nil && o.Pkg() != nil && strings.HasSuffix(o.Pkg().Path(), "/"+crdtPkg) && o.Name() != "DeepCopy" && !strings.HasPrefix(o.Name(), "New")
+						})
+						for _, tn := range emptyForm {
+							if concrete != "" && concrete != tn {
+								continue
+							}
+							x.check(fresh, fmt.Sprintf("type=%s operand-of=%s#%d func=%s just-created", tn, ctor.Name(), i+1, prog.FnName(fn)), x.pos(c),
+								"the operand comes from the creator callback: a "+tn+" among them is still empty", "the operand is (a copy of) an element taken from the document: when it is a populated "+tn+", the operation form carries none of its content and every peer receives an empty "+tn)
+						}
+					}
+				}
+			}
+			if sites < 5 {
+				x.C.Vacuous(x.id()+" operand construction sites", sites, 5)
+			}
+		}})
+}
+
+// s3value compares, per element type, the fields the snapshot encoder reads with those
+// the type's case of toJSONElementSimple reads; it returns the types carried as an
+// empty container. Obligations are reported only when report is set.
+func s3value(x *Ctx, report bool) []string {
+	simple := x.fn(convPkg + ".toJSONElementSimple")
+	snap := x.fn(convPkg + ".SnapshotToBytes")
+	if simple == nil || snap == nil {
+		x.C.Unresolved(x.id(), "converter.toJSONElementSimple / SnapshotToBytes")
+		return nil
+	}
+	scope := []string{convPkg, crdtPkg, "pkg/document/time", "pkg/index", "pkg/splay", "pkg/llrb", "pkg/treelist"}
+	er, _ := structFieldsUsed(x.closureOf([]*ssa.Function{snap}, scope), []string{"/pkg/document/crdt"})
+	// per element type: what the type's own case of the switch reads (the callees handed the asserted value)
+	caseReads := func(nt *types.Named) map[string]bool {
+		var roots []*ssa.Function
+		for _, b := range simple.Blocks {
+			for _, ins := range b.Instrs {
+				ta, ok := ins.(*ssa.TypeAssert)
+				if !ok {
+					continue
+				}
+				pt, isP := ta.AssertedType.(*types.Pointer)
+				if !isP || !isNamed(pt.Elem(), nt) {
+					continue
+				}
+				for _, c := range prog.CallsIn(simple) {
+					uses := false
+					for _, a := range c.Common().Args {
+						if prog.Reaches(a, func(w ssa.Value) bool {
+							if w == ssa.Value(ta) {
+								return true
+							}
+							e, isE := w.(*ssa.Extract)
+							return isE && e.Tuple == ssa.Value(ta)
+						}) {
+							uses = true
+						}
+					}
+					if uses {
+						roots = append(roots, x.P.Callees(c)...)
+					}
+				}
+			}
+		}
+		r, _ := structFieldsUsed(x.closureOf(roots, scope), []string{"/pkg/document/crdt"})
+		return r
+	}
+	stamps := map[string]bool{"createdAt": true, "movedAt": true, "removedAt": true}
+	n := 0
+	var emptyForm []string
+	for _, tn := range []string{"Primitive", "Counter", "Object", "Array", "Text", "Tree"} {
+		nt := x.P.Named(crdtPkg + "." + tn)
+		if nt == nil {
+			x.C.Unresolved(x.id(), crdtPkg+"."+tn)
+			continue
+		}
+		st, ok := nt.Underlying().(*types.Struct)
+		if !ok {
+			continue
+		}
+		var content []*types.Var
+		any := false
+		sr := caseReads(nt)
+		for i := 0; i < st.NumFields(); i++ {
+			f := st.Field(i)
+			key := tn + "." + f.Name()
+			if stamps[f.Name()] || !er[key] {
+				continue
+			}
+			if _, derived := derivedFields[key]; derived {
+				continue
+			}
+			content = append(content, f)
+			if sr[key] {
+				any = true
+			}
+		}
+		if !any {
+			n++
+			if report {
+				x.C.Add(obTrivial(x.id(), "type="+tn+" carried-as-empty-container", x.P.Pos(nt.Obj().Pos()), "the operation form encodes none of the type's content: the element is created empty and filled by the operations that follow"))
+			}
+			emptyForm = append(emptyForm, tn)
+			continue
+		}
+		for _, f := range content {
+			n++
+			if !report {
+				continue
+			}
+			x.check(sr[tn+"."+f.Name()], "type="+tn+" field="+f.Name()+" carried-by-operation-form", x.P.Pos(f.Pos()), "the operation form reads the field as the snapshot form does",
+				"the snapshot encoder keeps "+tn+"."+f.Name()+" but the operation-form encoder (toJSONElementSimple) drops it while encoding the rest of the value: a "+tn+" that arrives inside a Set/Add/ArraySet operation differs from the one its sender holds")
+		}
+	}
+	if n < 6 && report {
+		x.C.Vacuous(x.id()+" element types", n, 6)
+	}
+	return emptyForm
+}
+
+// hasDeepCopy: the type (pointer to named, named, interface, or type parameter)
+// offers a DeepCopy method.
+func hasDeepCopy(t types.Type) bool {
+	if tp, ok := t.(*types.TypeParam); ok {
+		t = tp.Constraint()
+	}
+	ms := types.NewMethodSet(t)
+	for i := 0; i < ms.Len(); i++ {
+		if ms.At(i).Obj().Name() == "DeepCopy" {
+			return true
+		}
+	}
+	if _, isPtr := t.(*types.Pointer); !isPtr {
+		if _, isIface := t.Underlying().(*types.Interface); !isIface {
+			ms = types.NewMethodSet(types.NewPointer(t))
+			for i := 0; i < ms.Len(); i++ {
+				if ms.At(i).Obj().Name() == "DeepCopy" {
+					return true
+				}
+			}
+		}
+	}
+	return false
+}
+
+func init() {
+	register(&Rule{ID: "DC.deep", Min: 10, Text: "copies share no mutable state with their source: in every DeepCopy method of the document model, the change/presence packages and the database records, a field whose type offers DeepCopy itself (an element, a text value, a nested record), or that is a map, is never filled by handing over the receiver's own field value — it is filled from a DeepCopy call, a constructor or a fresh map; otherwise the user's editing copy, the cached server document or the stored record and its source mutate each other",
+		Run: func(x *Ctx) {
+			pkgs := []string{docPkg, changePkg, crdtPkg, "pkg/document/presence/inner", dbPkg, "api/types", "pkg/document/json"}
+			skip := map[string]string{
+				"Map.presences": "copy-on-write by design; its completeness is rule P.cow",
+			}
+			vvT := x.P.Named(timePkg + ".VersionVector")
+			// maps nobody writes into: no map assignment / delete anywhere in production code has an operand loaded from the field
+			written := map[*types.Var]bool{}
+			for _, g := range x.P.ProdFuncs() {
+				for _, b := range g.Blocks {
+					for _, ins := range b.Instrs {
+						var m ssa.Value
+						switch t := ins.(type) {
+						case *ssa.MapUpdate:
+							m = t.Map
+						case *ssa.Call:
+							if bi, ok := t.Call.Value.(*ssa.Builtin); ok && bi.Name() == "delete" {
+								m = t.Call.Args[0]
+							}
+						}
+						if m != nil {
+							if lf := prog.LoadedField(m); lf != nil {
+								written[lf] = true
+							}
+						}
+					}
+				}
+			}
+			n := 0
+			for _, fn := range x.P.FuncsIn(pkgs...) {
+				if fn.Name() != "DeepCopy" || fn.Signature.Recv() == nil || fn.Parent() != nil || len(fn.Params) == 0 {
+					continue
+				}
+				if o := fn.Origin(); o != nil && o != fn {
+					continue
+				}
+				recv := fn.Params[0]
+				rn := namedOf(recv.Type())
+				if rn == nil {
+					continue
+				}
+				fromRecv := func(v ssa.Value) *types.Var {
+					u, ok := prog.Strip(v).(*ssa.UnOp)
+					if !ok {
+						if f, isF := prog.Strip(v).(*ssa.Field); isF {
+							if prog.Reaches(f.X, func(w ssa.Value) bool { return w == ssa.Value(recv) }) {
+								return prog.FieldVar(f)
+							}
+						}
+						return nil
+					}
+					fa, ok := u.X.(*ssa.FieldAddr)
+					if !ok {
+						return nil
+					}
+					if !prog.Reaches(fa.X, func(w ssa.Value) bool { return w == ssa.Value(recv) }) {
+						return nil
+					}
+					return prog.FieldVar(fa)
+				}
+				for _, b := range fn.Blocks {
+					for _, ins := range b.Instrs {
+						st, ok := ins.(*ssa.Store)
+						if !ok {
+							continue
+						}
+						fa, ok := st.Addr.(*ssa.FieldAddr)
+						if !ok {
+							continue
+						}
+						dn := namedOf(fa.X.Type())
+						if dn == nil || dn.Origin().Obj() != rn.Origin().Obj() {
+							continue
+						}
+						if prog.Reaches(fa.X, func(w ssa.Value) bool { return w == ssa.Value(recv) }) {
+							continue // a store into the receiver itself (cache fill), not into the copy
+						}
+						df := prog.FieldVar(fa)
+						if df == nil {
+							continue
+						}
+						ft := df.Type()
+						_, isMap := ft.Underlying().(*types.Map)
+						if !isMap && !hasDeepCopy(ft) {
+							continue
+						}
+						n++
+						key := "type=" + rn.Origin().Obj().Name() + " field=" + df.Name() + " not-shared"
+						if why, ok := skip[rn.Origin().Obj().Name()+"."+df.Name()]; ok {
+							x.C.Add(obTrivial(x.id(), key, x.pos(st), "exempt: "+why))
+							continue
+						}
+						sf := fromRecv(st.Val)
+						if sf != nil && vvT != nil && isNamed(ft, vvT) {
+							x.C.Add(obTrivial(x.id(), key, x.pos(st), "a version vector is shared, and version vectors are never modified in place unless fresh (rule A1)"))
+							continue
+						}
+						if sf != nil && isMap && !written[sf] && !hasDeepCopy(ft) {
+							x.C.Add(obTrivial(x.id(), key, x.pos(st), "the map is shared, and no production code assigns into or deletes from a map loaded from "+sf.Name()+" (it is filled once, when the record is built)"))
+							continue
+						}
+						x.check(sf == nil, key, x.pos(st), "the field of the copy is built from a DeepCopy call, a constructor or a fresh map",
+							"DeepCopy hands the receiver's own "+rn.Origin().Obj().Name()+"."+df.Name()+" value to the copy although the type is mutable (it offers DeepCopy / is a map): the copy and its source now change each other")
+					}
+				}
+			}
+			if n < 10 {
+				x.C.Vacuous(x.id()+" deep fields", n, 10)
+			}
+		}})
+}
